@@ -1,6 +1,7 @@
 import PQ.Lemmas.ReaderChunk
 import PQ.Lemmas.FileRT
 import PQ.Lemmas.SchemaTree
+import PQ.Model.Text
 /-!
 # The generated reader on a whole file: write-then-read returns exactly the records that were added
 
@@ -8,7 +9,9 @@ import PQ.Lemmas.SchemaTree
 * `pagesOf_fileMetas` – `Metadata.Pages()` on the footer's row groups;
 * `openReader_file` – `NewParquetReader` on `PAR1 ‖ row groups ‖ footer ‖ length ‖ PAR1`;
 * `scanEntries` / `scanCol_eq` – `Scan` of one column restated on entries;
-* `readAllEntries`, `readAll_runWriter` – open, then `Next`/`Scan` until `Next` is false.
+* `readAllEntries`, `readAll_runWriter` – open, then `Next`/`Scan` until `Next` is false;
+* `readAll_of_entries` – the text driver `readAll` (the line compared with the Go program's output) is a
+  function of `readAllEntries`.
 -/
 namespace PQ
 open PQ.Thrift
@@ -797,5 +800,427 @@ theorem readLoop_inv (dc : Decomp) (k : Codec) (cols : List Col) {max : Nat} (hm
         rw [ih (fun r' hr' => hrs r' (List.mem_cons_of_mem _ hr')) pre (cu + 1) (rc + 1) rn f (acc ++ [rowOf cols.length r])
           (by omega) (by omega) (by omega)]
         simp
+
+/-! ## the whole file -/
+
+/-- **C01 for the reader model, explicit form.**  Every `Close`d history of `Add`s and `Write`s whose
+batches are `BatchOK`, read back with the generated reader: `Rows()` is the number of written
+records, `Next()` is true exactly that many times, the `k`-th `Scan` consumes, for every column,
+exactly the entries the `k`-th written record holds for it, and `Error()` is nil at the end.
+
+`hres`: the joined column names are pairwise distinct (`ColsResolve`); `hsize`: the file is smaller
+than 4 GiB; `hschema`: `schema()` does not panic. -/
+theorem readAll_runWriter (dc : Decomp) (k : Codec) (cols : List Col) (max : Nat) (body : List Op)
+    (hmax : 1 ≤ max) (hcols : cols ≠ []) (hres : ColsResolve cols) (hbody : ∀ op ∈ body, op.isClose = false)
+    (hok : ∀ b ∈ batches body, BatchOK dc k cols max b)
+    (hsize : (fileBytes (runWriter cols max k (body ++ [Op.close]))).length < 2 ^ 32)
+    (se : List SElem) (hschema : schemaElems cols = some se) :
+    readAllEntries cols dc (fileBytes (runWriter cols max k (body ++ [Op.close]))) =
+      some (((((batches body).map List.length).sum : Nat) : Int),
+            (batches body).flatten.map (fun r => (List.range cols.length).map fun i => r.getD i [])) := by
+  have ot := PQ.C06.offsets_truthful hmax cols hcols k body hbody se hschema
+  simp only at ot
+  obtain ⟨_, _, hfile, _, _, _⟩ := ot
+  have hne : ∀ b ∈ batches body, b ≠ [] := batchesAux_ne_nil body []
+  have hbs : ∀ b ∈ batches body, b ≠ [] ∧ BatchOK dc k cols max b := fun b hb => ⟨hne b hb, hok b hb⟩
+  have hdata : ((batches body).map (batchItems cols max k)).flatMap itemsBytes = prgsBytes k (prgsOf cols max (batches body)) := by
+    unfold prgsBytes prgsOf pitemsBytes
+    rw [List.flatMap_map, List.flatMap_map]
+    simp only [batchItems_eq]
+  have hrgs : rgTs k.id ((batches body).map fun b => (b.length, batchItems cols max k b)) 4 =
+      rgTs k.id ((prgsOf cols max (batches body)).map fun g => (g.1, g.2.map (mkItem k))) 4 := by
+    unfold prgsOf
+    rw [List.map_map]
+    simp only [batchItems_eq]
+    rfl
+  rw [hdata, hrgs] at hfile
+  have hse : se ≠ [] := schemaElems_ne_nil cols se hschema
+  generalize hN : ((batches body).map List.length).sum = N at hfile ⊢
+  generalize hR : rgTs k.id ((prgsOf cols max (batches body)).map fun g => (g.1, g.2.map (mkItem k))) 4 = rgs at hfile
+  have hrwf : ∀ t ∈ rgs, t.ecode = tStruct ∧ t.WF ∧ t.dep ≤ 5 := by rw [← hR]; exact rgTs_wf _ _ _
+  have hrdec : rgs.mapM decRG = some (fileMetas k (prgsOf cols max (batches body)) 4) := by
+    rw [← hR]; exact mapM_decRG_rgTs k _ 4
+  change fileBytes (runWriter cols max k (body ++ [Op.close])) =
+    par1 ++ prgsBytes k (prgsOf cols max (batches body)) ++
+      ((footerOf se N rgs).enc ++ le32 (footerOf se N rgs).enc.length ++ par1) at hfile
+  have hn : (footerOf se N rgs).enc.length < 2 ^ 32 := by
+    rw [hfile] at hsize
+    simp only [List.length_append] at hsize
+    omega
+  have hopen := openReader_layout dc k cols hres (prgsOf cols max (batches body))
+    (prgsOf_cols dc k cols hmax _ hbs) se hse N rgs hrwf hrdec _ _ hfile hn
+  generalize hpost : (footerOf se N rgs).enc ++ le32 (footerOf se N rgs).enc.length ++ par1 = post at hfile
+  generalize fileBytes (runWriter cols max k (body ++ [Op.close])) = file at hfile hopen ⊢
+  subst hfile
+  unfold readAllEntries
+  rw [hopen]
+  have hp4 : par1.length = 4 := rfl
+  generalize hB : batches body = bs at hbs hN hopen ⊢
+  cases bs with
+  | nil =>
+    simp only [List.map_nil, List.sum_nil] at hN
+    subst hN
+    simp only [prgsOf, List.map_nil, fileMetas, RState.readRowGroup]
+    rw [show ((((0 : Nat) : Int) + 3).toNat) = 2 + 1 by rfl, readLoop_done 2 _ [] rfl (by simp)]
+    simp
+  | cons b bs' =>
+    have hload := readRowGroup_batch dc k cols hmax hres b bs' hbs par1 post (N : Int) 0 0 0
+      (List.replicate cols.length {}) false
+    rw [hp4] at hload
+    rw [hload]
+    simp only
+    have hfile2 : par1 ++ prgsBytes k (prgsOf cols max (b :: bs')) ++ post =
+        (par1 ++ pitemsBytes k (batchPItems cols max b)) ++ prgsBytes k (prgsOf cols max bs') ++ post := by
+      rw [prgsOf_cons, prgsBytes_cons]; simp only [List.append_assoc]
+    obtain ⟨_, _, _, hrecs⟩ := batch_rd dc k cols hmax b (hbs b List.mem_cons_self).1 (hbs b List.mem_cons_self).2
+    simp only [List.map_cons, List.sum_cons] at hN
+    have := readLoop_inv dc k cols hmax hres (N : Int) post bs' (fun b' hb' => hbs b' (List.mem_cons_of_mem _ hb')) b hrecs
+      (par1 ++ pitemsBytes k (batchPItems cols max b)) 0 0 (b.length : Nat) (((N : Int) + 3).toNat) []
+      (by rw [← hN]; simp) (by simp) (by omega)
+    rw [← hfile2] at this
+    rw [this]
+    have hrow : rowOf cols.length = fun r : Rec => (List.range cols.length).map fun i => r.getD i [] := rfl
+    rw [hrow]
+    simp
+
+/-- **C01 for the reader model, with hypotheses on the added records** (the hypotheses of
+`parseFile_runWriter_records`, minus the schema-decoding ones the reader does not look at, plus
+`hres`: the joined column names are pairwise distinct). -/
+theorem readAll_runWriter_records (dc : Decomp) (k : Codec) (cols : List Col) (max : Nat) (body : List Op)
+    (hmax : 1 ≤ max) (hcols : cols ≠ []) (hres : ColsResolve cols) (hbody : ∀ op ∈ body, op.isClose = false)
+    (hrec : ∀ r, Op.add r ∈ body → r.length = cols.length ∧ ∀ x ∈ cols.zipIdx, RecColOK x.1 (r.getD x.2 []))
+    (hdef : ∀ c ∈ cols, c.maxDef ≤ 15)
+    (hlen : ∀ b ∈ batches body, ∀ x ∈ cols.zipIdx, (b.flatMap (·.getD x.2 [])).length + 8 ≤ 2 ^ 30)
+    (hcodec : ∀ raw, CodecOK dc k (k.id : Int) raw)
+    (hsize : (fileBytes (runWriter cols max k (body ++ [Op.close]))).length < 2 ^ 32)
+    (se : List SElem) (hschema : schemaElems cols = some se) :
+    readAllEntries cols dc (fileBytes (runWriter cols max k (body ++ [Op.close]))) =
+      some (((((batches body).map List.length).sum : Nat) : Int),
+            (batches body).flatten.map (fun r => (List.range cols.length).map fun i => r.getD i [])) := by
+  apply readAll_runWriter dc k cols max body hmax hcols hres hbody _ hsize se hschema
+  intro b hb
+  exact batchOK_of_records dc k cols hmax b
+    (fun r hr => (hrec r (mem_batches_added body b hb r hr)).1)
+    (fun r hr => (hrec r (mem_batches_added body b hb r hr)).2)
+    hdef (hlen b hb) hcodec
+
+/-! ## from entries back to values -/
+
+/-- a `RequiredField`'s striping is the single entry `⟨0, 0, some x⟩`, and `x` is the value -/
+theorem stripe_required_value {α : Type} : ∀ (ts : List Rep), (∀ t ∈ ts, t = Rep.req) → ∀ (v : Proj α ts),
+    ∃ x : α, stripeTop ts v = [⟨0, 0, some x⟩] ∧ zeroProj x ts = v
+  | [], _, v => ⟨v, rfl, rfl⟩
+  | .req :: ts, h, v => stripe_required_value ts (fun t ht => h t (List.mem_cons_of_mem _ ht)) v
+  | .opt :: ts, h, _ => absurd (h .opt List.mem_cons_self) (by decide)
+  | .rpt :: ts, h, _ => absurd (h .rpt List.mem_cons_self) (by decide)
+
+/-- **What `Scan` writes into the record** when the entries it consumed are the Dremel striping of
+the projection `v` (what `Add` stores for a value, C03): exactly `v` (`PQ.C03.assemble_stripe`). -/
+theorem scanText_stripe (c : Col) (showP : (ts : List Rep) → Proj Bytes ts → String) (v : Proj Bytes c.reps) :
+    scanText c showP (stripeTop c.reps v) = showP c.reps v := by
+  by_cases hreq : c.isRequired = true
+  · have hall : ∀ t ∈ c.reps, t = Rep.req := by
+      intro t ht
+      have := List.all_eq_true.mp hreq t ht
+      cases t <;> first | rfl | exact absurd this (by decide)
+    obtain ⟨x, hx, hz⟩ := stripe_required_value c.reps hall v
+    rw [hx]
+    simp only [scanText, if_pos hreq, Option.getD_some, hz]
+  · obtain ⟨e, tl, he, _, _⟩ := PQ.C03.first_rep_zero c.reps v
+    have ha := PQ.C03.assemble_stripe_nil c.reps v
+    rw [he] at ha ⊢
+    simp only [scanText, if_neg hreq, ha]
+
+/-- `Next()` is true exactly `Rows()` times: the number of delivered rows is the number of written records -/
+theorem readAll_runWriter_counts (dc : Decomp) (k : Codec) (cols : List Col) (max : Nat) (body : List Op)
+    (hmax : 1 ≤ max) (hcols : cols ≠ []) (hres : ColsResolve cols) (hbody : ∀ op ∈ body, op.isClose = false)
+    (hok : ∀ b ∈ batches body, BatchOK dc k cols max b)
+    (hsize : (fileBytes (runWriter cols max k (body ++ [Op.close]))).length < 2 ^ 32)
+    (se : List SElem) (hschema : schemaElems cols = some se) :
+    ∃ rows, readAllEntries cols dc (fileBytes (runWriter cols max k (body ++ [Op.close]))) =
+        some (((((batches body).map List.length).sum : Nat) : Int), rows) ∧
+      rows.length = ((batches body).map List.length).sum := by
+  refine ⟨_, readAll_runWriter dc k cols max body hmax hcols hres hbody hok hsize se hschema, ?_⟩
+  rw [List.length_map, List.length_flatten]
+
+/-! ## `ColsResolve` is checkable -/
+
+def colsResolveB (cols : List Col) : Bool :=
+  (List.range cols.length).all fun i =>
+    match cols[i]? with
+    | some c => colIndex cols (pathName (c.path.map strBytes)) == some i
+    | none => true
+
+theorem colsResolve_of_check (cols : List Col) (h : colsResolveB cols = true) : ColsResolve cols := by
+  intro i c hc
+  have hi : i < cols.length := by
+    rcases Nat.lt_or_ge i cols.length with h | h
+    · exact h
+    · rw [List.getElem?_eq_none h] at hc; exact absurd hc (by simp)
+  have := List.all_eq_true.mp h i (List.mem_range.mpr hi)
+  rw [hc] at this
+  simpa using this
+
+/-! ## Non-vacuity: two columns, `max = 2`, history add, add, add, write, write, add, close -/
+section NonVacuity
+
+private def rxCols : List Col :=
+  [{ path := ["a"], reps := [.req], ty := .i32 }, { path := ["b"], reps := [.rpt], ty := .i32 }]
+private def rxCodec : Codec := { id := 0, compress := id }
+private def rxDc : Decomp := { snappy := fun _ => none, gzip := fun _ => none }
+/-- record `k`: `a = k`, `b = [k, k + 256]` for even `k` and `[]` for odd `k` -/
+private def rxRec (k : Nat) : Rec :=
+  [[{ rep := 0, dl := 0, val := some [k, 0, 0, 0] }],
+   if k % 2 = 0 then [{ rep := 0, dl := 1, val := some [k, 0, 0, 0] }, { rep := 1, dl := 1, val := some [k, 1, 0, 0] }]
+   else [{ rep := 0, dl := 0, val := none }]]
+private def rxBody : List Op :=
+  [.add (rxRec 1), .add (rxRec 2), .add (rxRec 3), .write, .write, .add (rxRec 4), .add (rxRec 5), .write, .add (rxRec 6)]
+private def rxSe : List SElem :=
+  [{ name := "root", numChildren := some 2 }, { name := "a", ty := some 1, rep := some 0 },
+   { name := "b", ty := some 1, rep := some 2 }]
+
+private theorem rx_batches : batches rxBody = [[rxRec 1, rxRec 2, rxRec 3], [rxRec 4, rxRec 5]] := by decide
+
+private theorem rx_ok : ∀ b ∈ batches rxBody, BatchOK rxDc rxCodec rxCols 2 b := by
+  rw [rx_batches]
+  intro b hb
+  have hx' : ∀ x ∈ rxCols.zipIdx, x = (⟨["a"], [.req], .i32⟩, 0) ∨ x = (⟨["b"], [.rpt], .i32⟩, 1) := by
+    intro x hx; simpa [rxCols] using hx
+  have hb' : b = [rxRec 1, rxRec 2, rxRec 3] ∨ b = [rxRec 4, rxRec 5] := by simpa using hb
+  rcases hb' with rfl | rfl
+  · apply batchOK_of_records rxDc rxCodec rxCols (by decide)
+    · decide
+    · intro r hr x hx
+      have hr' : r = rxRec 1 ∨ r = rxRec 2 ∨ r = rxRec 3 := by simpa using hr
+      rcases hx' x hx with rfl | rfl <;> rcases hr' with rfl | rfl | rfl <;>
+        exact ⟨⟨_, _, rfl, rfl, by simp⟩, by decide, by decide⟩
+    · decide
+    · intro x hx
+      rcases hx' x hx with rfl | rfl <;> decide
+    · intro raw; exact Or.inl ⟨rfl, rfl⟩
+  · apply batchOK_of_records rxDc rxCodec rxCols (by decide)
+    · decide
+    · intro r hr x hx
+      have hr' : r = rxRec 4 ∨ r = rxRec 5 := by simpa using hr
+      rcases hx' x hx with rfl | rfl <;> rcases hr' with rfl | rfl <;>
+        exact ⟨⟨_, _, rfl, rfl, by simp⟩, by decide, by decide⟩
+    · decide
+    · intro x hx
+      rcases hx' x hx with rfl | rfl <;> decide
+    · intro raw; exact Or.inl ⟨rfl, rfl⟩
+
+/-- the theorem applied: two row groups (pages of 2 + 1 and of 2 records), an empty `Write`, a record
+pending at `Close`: the reader reports 5 rows and delivers the five written records, in order -/
+example : readAllEntries rxCols rxDc (fileBytes (runWriter rxCols 2 rxCodec (rxBody ++ [Op.close]))) =
+    some (5, [rxRec 1, rxRec 2, rxRec 3, rxRec 4, rxRec 5]) := by
+  have := readAll_runWriter rxDc rxCodec rxCols 2 rxBody (by decide) (by decide)
+    (colsResolve_of_check _ (by decide +kernel)) (by decide) rx_ok (by decide +kernel) rxSe (by decide +kernel)
+  rw [rx_batches] at this
+  exact this
+
+end NonVacuity
+
+/-! ## the text driver `readAll` is a function of `readAllEntries` -/
+
+/-- the text of one delivered row -/
+def rowText (cols : List Col) (row : List (List (Entry Bytes))) : String :=
+  "|".intercalate (List.zipWith (fun c es => scanText c showProj es) cols row)
+
+theorem scanAll_go_eq : ∀ (cols : List Col) (bufs : List ColBuf),
+    scanAll.go cols bufs =
+      (scanAllEntries cols bufs).map fun x => (List.zipWith (fun c es => scanText c showProj es) cols x.1, x.2)
+  | [], _ => rfl
+  | c :: cs, bufs => by
+    rw [scanAll.go, scanAllEntries, scanCol_eq, scanAll_go_eq cs bufs.tail]
+    cases scanEntries c (bufs.head?.getD {}) with
+    | none => rfl
+    | some p =>
+      obtain ⟨es, b⟩ := p
+      simp only [Option.map_some]
+      cases scanAllEntries cs bufs.tail with
+      | none => rfl
+      | some q => rfl
+
+theorem scanAll_eq (cols : List Col) (bufs : List ColBuf) :
+    scanAll cols bufs = (scanAllEntries cols bufs).map fun x => (rowText cols x.1, x.2) := by
+  unfold scanAll
+  rw [scanAll_go_eq]
+  cases scanAllEntries cols bufs with
+  | none => rfl
+  | some q => rfl
+
+theorem readRowGroup_go_cols : ∀ (chs : List ChunkMeta) (st st' : RState),
+    RState.readRowGroup.go chs st = .ok st' → st'.cols = st.cols
+  | [], st, st', h => by
+    simp only [RState.readRowGroup.go, Except.ok.injEq] at h
+    rw [← h]
+  | ch :: chs, st, st', h => by
+    rw [RState.readRowGroup.go] at h
+    split at h
+    · exact absurd h (by simp)
+    · split at h
+      · exact absurd h (by simp)
+      · split at h
+        · simp only [Except.ok.injEq] at h; rw [← h]
+        · split at h
+          · exact absurd h (by simp)
+          · split at h
+            · exact absurd h (by simp)
+            · have := readRowGroup_go_cols chs _ st' h
+              exact this
+
+theorem readRowGroup_cols (st st' : RState) (h : st.readRowGroup = .ok st') : st'.cols = st.cols := by
+  unfold RState.readRowGroup at h
+  split at h
+  · simp only [Except.ok.injEq] at h; rw [← h]
+  · simp only at h
+    split at h
+    · exact absurd h (by simp)
+    · next st2 hgo =>
+      simp only [Except.ok.injEq] at h
+      rw [← h]
+      have := readRowGroup_go_cols _ _ _ hgo
+      exact this
+
+theorem next_cols (st st' : RState) (b : Bool) (h : st.next = .ok (b, st')) : st'.cols = st.cols := by
+  unfold RState.next at h
+  split at h
+  · simp only [Except.ok.injEq, Prod.mk.injEq] at h; rw [← h.2]
+  · simp only at h
+    by_cases hc : st.rgCursor ≥ st.rgCount
+    · rw [if_pos hc] at h
+      cases hr : st.readRowGroup with
+      | error e =>
+        rw [hr] at h
+        cases e with
+        | panic => exact absurd h (by simp)
+        | err => simp only [Except.ok.injEq, Prod.mk.injEq] at h; rw [← h.2]
+      | ok st2 =>
+        rw [hr] at h
+        simp only [Except.ok.injEq, Prod.mk.injEq] at h
+        rw [← h.2]
+        have := readRowGroup_cols _ _ hr
+        exact this
+    · rw [if_neg hc] at h
+      simp only [Except.ok.injEq, Prod.mk.injEq] at h
+      rw [← h.2]
+
+/-- whenever the entry-level loop succeeds, the text loop ends with status `ok`, as many `Next`s and
+the texts of the same rows -/
+theorem readAll_loop_of_readLoop : ∀ (fuel : Nat) (st : RState) (acc res : List (List (List (Entry Bytes)))) (k : Nat)
+    (recs : List String), readLoop fuel st acc = some res →
+    ∃ rows, res = acc ++ rows ∧
+      readAll.loop fuel st k recs = ("ok", k + rows.length, recs ++ rows.map (rowText st.cols))
+  | 0, _, _, _, _, _, h => by simp [readLoop] at h
+  | fuel+1, st, acc, res, k, recs, h => by
+    rw [readLoop] at h
+    rw [readAll.loop]
+    cases hn : st.next with
+    | error e => rw [hn] at h; exact absurd h (by simp)
+    | ok p =>
+      obtain ⟨b, st'⟩ := p
+      have hc := next_cols st st' b hn
+      rw [hn] at h
+      cases b with
+      | false =>
+        simp only at h ⊢
+        cases he : st'.err with
+        | true => rw [he] at h; exact absurd h (by simp)
+        | false =>
+          rw [he] at h
+          simp only [Bool.false_eq_true, if_false, Option.some.injEq] at h ⊢
+          exact ⟨[], by simp [h], by simp⟩
+      | true =>
+        simp only at h ⊢
+        cases he : st'.err with
+        | true => rw [he] at h; exact absurd h (by simp)
+        | false =>
+          rw [he] at h
+          simp only [Bool.false_eq_true, if_false] at h ⊢
+          by_cases hf : (!st'.fieldsSet) = true ∧ (!st'.cols.isEmpty) = true
+          · rw [if_pos hf] at h; exact absurd h (by simp)
+          · rw [if_neg hf] at h ⊢
+            rw [scanAll_eq]
+            cases hs : scanAllEntries st'.cols st'.bufs with
+            | none => rw [hs] at h; exact absurd h (by simp)
+            | some q =>
+              obtain ⟨row, bufs⟩ := q
+              rw [hs] at h
+              simp only [Option.map_some] at h ⊢
+              obtain ⟨rows, hr, hl⟩ := readAll_loop_of_readLoop fuel _ (acc ++ [row]) res (k + 1)
+                (recs ++ [rowText st'.cols row]) h
+              refine ⟨row :: rows, by rw [hr]; simp, ?_⟩
+              rw [hl]
+              simp only [hc, List.length_cons, List.map_cons, List.append_assoc, List.singleton_append, Nat.add_assoc,
+                Nat.add_comm 1]
+
+theorem openReader_cols (cols : List Col) (dc : Decomp) (file : Bytes) (st : RState)
+    (ho : openReader cols dc file = .ok st) : st.cols = cols := by
+  unfold openReader at ho
+  split at ho
+  · exact absurd ho (by simp)
+  · split at ho
+    · exact absurd ho (by simp)
+    · simp only at ho
+      split at ho
+      · exact absurd ho (by simp)
+      · split at ho
+        · exact absurd ho (by simp)
+        · split at ho
+          · exact absurd ho (by simp)
+          · split at ho
+            · exact absurd ho (by simp)
+            · have := readRowGroup_cols _ _ ho
+              exact this
+
+theorem status_literal : " err=" ++ "ok" ++ " recs=" = " err=ok recs=" := by decide
+
+theorem status_line (a X : String) :
+    a ++ toString " err=" ++ toString "ok" ++ toString " recs=" ++ X = a ++ toString " err=ok recs=" ++ X := by
+  show a ++ " err=" ++ "ok" ++ " recs=" ++ X = a ++ " err=ok recs=" ++ X
+  rw [← status_literal]
+  simp only [String.append_assoc]
+
+/-- **The text driver is determined by `readAllEntries`**: whenever the latter succeeds with `n` rows
+`rows`, `readAll` (whose output is compared with the Go program's on every run) prints `open=ok`,
+`rows=n`, one `Next` per row, `err=ok`, and the `Scan` text of each row. -/
+theorem readAll_of_entries (cols : List Col) (dc : Decomp) (file : Bytes) (n : Int)
+    (rows : List (List (List (Entry Bytes)))) (h : readAllEntries cols dc file = some (n, rows)) :
+    readAll cols dc file =
+      s!"open=ok rows={n} nexts={rows.length} err=ok recs={if (rows.map (rowText cols)).isEmpty then "-" else ";".intercalate (rows.map (rowText cols))}" := by
+  unfold readAllEntries at h
+  unfold readAll
+  cases ho : openReader cols dc file with
+  | error e => rw [ho] at h; exact absurd h (by simp)
+  | ok st =>
+    rw [ho] at h
+    simp only [Option.map_eq_some_iff, Prod.mk.injEq] at h
+    obtain ⟨res, hl, hn, hres⟩ := h
+    obtain ⟨rows', hr, hloop⟩ := readAll_loop_of_readLoop _ st [] res 0 [] hl
+    have hcols : st.cols = cols := openReader_cols cols dc file st ho
+    simp only [List.nil_append] at hr hloop
+    subst hr
+    subst hres
+    subst hn
+    simp only [hloop, hcols, Nat.zero_add]
+    exact status_line _ _
+
+/-- **C01 on the line the harness compares with the Go program**: for the writer's file the text driver
+prints `open=ok`, `rows=` the number of written records, as many `Next`s, `err=ok`, and per record the
+texts `Scan` produces from exactly the record's entries (for striped projections: the projections
+themselves, `scanText_stripe`). -/
+theorem readAll_text_runWriter (dc : Decomp) (k : Codec) (cols : List Col) (max : Nat) (body : List Op)
+    (hmax : 1 ≤ max) (hcols : cols ≠ []) (hres : ColsResolve cols) (hbody : ∀ op ∈ body, op.isClose = false)
+    (hok : ∀ b ∈ batches body, BatchOK dc k cols max b)
+    (hsize : (fileBytes (runWriter cols max k (body ++ [Op.close]))).length < 2 ^ 32)
+    (se : List SElem) (hschema : schemaElems cols = some se) :
+    let recs := (batches body).flatten.map fun r => rowText cols ((List.range cols.length).map fun i => r.getD i [])
+    readAll cols dc (fileBytes (runWriter cols max k (body ++ [Op.close]))) =
+      s!"open=ok rows={((((batches body).map List.length).sum : Nat) : Int)} nexts={((batches body).map List.length).sum} err=ok recs={if recs.isEmpty then "-" else ";".intercalate recs}" := by
+  intro recs
+  have h := readAll_of_entries cols dc _ _ _ (readAll_runWriter dc k cols max body hmax hcols hres hbody hok hsize se hschema)
+  rw [h]
+  simp only [List.length_map, List.length_flatten, List.map_map]
+  rfl
 
 end PQ
